@@ -565,6 +565,82 @@ func c01NilKeepsContainer() *core.Space {
 	}
 }
 
+// c01OverReferences: A holds settings that are references to objects or lists elsewhere in A. Merging
+// B over such a setting merges with the referenced value, and the referenced setting itself - which B
+// does not mention - stays what it was.
+func c01OverReferences() *core.Space {
+	type shape struct {
+		name    string
+		a       M      // with references
+		aPlain  M      // the same data with the references substituted
+		b       M
+		refOnly string // the referenced setting B does not mention
+	}
+	shapes := []shape{
+		{"object reference", M{"base": M{"k": L{"A0"}, "j": "A1"}, "x": "${base}"}, M{"base": M{"k": L{"A0"}, "j": "A1"}, "x": M{"k": L{"A0"}, "j": "A1"}}, M{"x": M{"k": L{"B0"}, "extra": "B1"}}, "base"},
+		{"list reference", M{"base": L{"A0", "A1"}, "x": "${base}"}, M{"base": L{"A0", "A1"}, "x": L{"A0", "A1"}}, M{"x": L{"B0"}}, "base"},
+		{"nested object reference", M{"t": M{"base": M{"k": L{"A0"}}}, "o": M{"x": "${t.base}"}}, M{"t": M{"base": M{"k": L{"A0"}}}, "o": M{"x": M{"k": L{"A0"}}}}, M{"o": M{"x": M{"k": L{"B0"}, "n": "B1"}}}, "t"},
+		{"reference to an object holding a list of objects", M{"base": M{"l": L{M{"k": "A0"}}}, "x": "${base}"}, M{"base": M{"l": L{M{"k": "A0"}}}, "x": M{"l": L{M{"k": "A0"}}}}, M{"x": M{"l": L{M{"n": "B0"}}}}, "base"},
+		{"two references to one object", M{"base": M{"k": L{"A0"}}, "x": "${base}", "y": "${base}"}, M{"base": M{"k": L{"A0"}}, "x": M{"k": L{"A0"}}, "y": M{"k": L{"A0"}}}, M{"x": M{"k": L{"B0"}}}, "base"},
+		{"nil over nil stays nil", M{"n": nil, "o": M{"n": nil}}, M{"n": nil, "o": M{"n": nil}}, M{"n": nil, "o": M{"n": nil}}, ""},
+	}
+	radices := []int{len(shapes), len(allPolicies)}
+	return &core.Space{
+		Name: "merge-over-references",
+		Size: product(radices...),
+		Text: func(i int) string {
+			d := mixedRadix(i, radices...)
+			return fmt.Sprintf("policy=%s A=%v B=%v (%s)", allPolicies[d[1]], shapes[d[0]].a, shapes[d[0]].b, shapes[d[0]].name)
+		},
+		Exec: func(i int) core.Result {
+			d := mixedRadix(i, radices...)
+			sh, p := shapes[d[0]], allPolicies[d[1]]
+			var res core.Result
+			pi := core.Guard(func() {
+				opts := []ucfg.Option{ucfg.PathSep("."), ucfg.VarExp}
+				a, err := ucfg.NewFrom(sh.a, opts...)
+				if err != nil {
+					panic("harness: " + err.Error())
+				}
+				if err := a.Merge(sh.b, append(append([]ucfg.Option{}, opts...), policyOpt[p]...)...); err != nil {
+					res = core.Fail("overrefs", "ERROR "+p.String(), err.Error())
+					return
+				}
+				var got map[string]interface{}
+				if err := a.Unpack(&got, opts...); err != nil {
+					res = core.Fail("overrefs", "ERROR unpack "+p.String(), err.Error())
+					return
+				}
+				if sh.refOnly == "" {
+					// nil over nil: the setting is still nil (reads as the text null, is no object)
+					if s, err := a.String("n", -1, opts...); err != nil || s != "null" {
+						res = core.Fail("overrefs", "NIL-OVER-NIL "+p.String(), fmt.Sprintf("String(n) after merging nil over nil: (%q, %v)", s, err))
+						return
+					}
+					res.Nontrivial = true
+					return
+				}
+				want := tree.Merge(p, tree.FromGo(map[string]interface{}(sh.aPlain)), tree.FromGo(map[string]interface{}(sh.b)))
+				if g, w := tree.CanonGo(got), want.Canon(); g != w {
+					cls := "RESULT"
+					plainA := tree.FromGo(map[string]interface{}(sh.aPlain))
+					if tree.CanonGo(got[sh.refOnly]) != plainA.D[sh.refOnly].Canon() {
+						cls = "REFERENCED-SETTING-CHANGED"
+					}
+					res = core.Fail("overrefs", cls+" "+p.String(), fmt.Sprintf("%s: model=%s impl=%s", sh.name, w, g))
+					return
+				}
+				res.Nontrivial = true
+				res.Outcome = p.String()
+			})
+			if pi != nil {
+				return apiPanic("overrefs", pi)
+			}
+			return res
+		},
+	}
+}
+
 func init() {
 	core.Register(&core.Check{
 		ID:    "C01",
@@ -594,6 +670,7 @@ func init() {
 			}
 			return []*core.Space{
 				c01NilKeepsContainer(),
+				c01OverReferences(),
 				c01Pairs("pairs-T(2,{a},2)+T(1,{a,b},2)", small, []mergeRep{repMap}, true),
 				c01Pairs("pairs-reps", t1, []mergeRep{repStruct, repConfig}, false),
 				c01Pairs("pairs-spines-depth3", spines(2), []mergeRep{repMap}, false),
